@@ -355,7 +355,29 @@ func byzantineProposer(ctx context.Context, cl *cluster.Cluster, i int) {
 		ep := epochOf(cl, p.propSlot)
 		var msgs []*pbv1.ParSigExMsg
 		name := ""
-		switch verifrt.Intn("a", 8) {
+		switch verifrt.Intn("a", 9) {
+		case 8:
+			// one block, signed with the node's OWN key share, claimed under EVERY share index (enough entries
+			// for a threshold), in half of the cases carrying the marker graffiti with which charon's synthetic
+			// proposer labels blocks that must never reach a beacon node
+			name = "own-share-under-every-share-index"
+			marked := verifrt.Intn("a", 2) == 1
+			for idx := 1; idx <= cl.Cfg.N; idx++ {
+				ps := block(view, p.propSlot, own, idx)
+				if marked && p.propKind == propCapella {
+					var mg [32]byte
+					copy(mg[:], "SYNTHETIC BLOCK: DO NOT SUBMIT")
+					blk := viewBlock(view, p.propSlot, v, p.groupRandao, mg)
+					var err error
+					ps, err = core.NewPartialVersionedSignedProposal(&eth2api.VersionedSignedProposal{Version: eth2spec.DataVersionCapella,
+						Capella: &capella.SignedBeaconBlock{Message: blk, Signature: signRoot(own, blockSigningRoot(cl, blk))}}, idx)
+					if err != nil {
+						panic(err)
+					}
+					name = "own-share-under-every-share-index-synthetic-marker"
+				}
+				msgs = append(msgs, parSigMsg(propDuty, v.CorePK, ps))
+			}
 		case 0:
 			name = "other-view-block"
 			msgs = []*pbv1.ParSigExMsg{parSigMsg(propDuty, v.CorePK, block(view, p.propSlot, own, i+1))}
